@@ -50,6 +50,7 @@ TrapNames(kind) ==
       [] kind = "SUBSCRIPT" -> {"INDEX_OUT_OF_RANGE"}
       [] kind = "RANK" -> {"INVALID_DIMENSIONS"}
       [] kind = "ILLEGAL" -> {"INVALID_OPERAND_VALUE"}
+      [] kind = "HANDLER" -> {"ERRHAND_IN_HANDLER"}
       [] OTHER -> {}
 
 \* final outcome of the spec against the recorded outcome of a configuration
@@ -61,7 +62,7 @@ OutClause(st, o, rest) ==
     ELSE IF st.k = "error" THEN
          (IF rest > 0 THEN "extra-event"
           ELSE IF o.how # "trap" THEN "missing-error"
-          ELSE IF st.kind = "RETURN_WITHOUT_GOSUB" THEN "ok"
+          ELSE IF st.kind \in {"RETURN_WITHOUT_GOSUB", "RESUME_WITHOUT_ERROR"} THEN "ok"
           ELSE IF o.trap \notin TrapNames(st.kind) THEN "error-class"
           ELSE IF o.ln # 0 /\ o.ln # st.ln THEN "error-line" ELSE "ok")
     ELSE st.k        \* "oom" / "budget": the rest of the run is out of the model, not a verdict
